@@ -344,6 +344,22 @@ func (ce *CEnv) eval(e Expr) Val {
 }
 
 func (ce *CEnv) typeByName(name string) types.Type {
+	name = strings.TrimSpace(name)
+	if name == "interface{}" || name == "any" {
+		return types.NewInterfaceType(nil, nil)
+	}
+	if name == "error" {
+		return types.Universe.Lookup("error").Type()
+	}
+	if name == "*big.Int" {
+		if ce.pkg != nil {
+			for _, imp := range ce.pkg.Imports() {
+				if imp.Path() == "math/big" {
+					return types.NewPointer(imp.Scope().Lookup("Int").Type())
+				}
+			}
+		}
+	}
 	if strings.HasPrefix(name, "[]") {
 		if et := ce.typeByName(name[2:]); et != nil {
 			return types.NewSlice(et)
@@ -364,6 +380,13 @@ func (ce *CEnv) typeByName(name string) types.Type {
 						return tn.Type()
 					}
 				}
+			}
+		}
+		// fall back to any loaded package of that name (the contract file's package may import it while the
+		// package of the function being called does not)
+		if p := ce.fv.eng.packageByName(name[:i], ce.pkgPath); p != nil {
+			if tn, ok := p.Scope().Lookup(name[i+1:]).(*types.TypeName); ok {
+				return tn.Type()
 			}
 		}
 		return nil
@@ -495,6 +518,12 @@ func (ce *CEnv) fieldOf(x Val, name string, must bool) (Val, bool) {
 					cfail("big.Int by value")
 				}
 				k := fv.fieldKey(p.Elem(), st, i)
+				if fv.isMatType(p.Elem()) {
+					_, ebase, eidx := fv.erefFuns(p.Elem())
+					ek := fv.elemsKey(p.Elem())
+					alt := "(" + fv.fieldAcc(p.Elem(), st, i) + " (select (select " + fv.heapGet(ce.st, ek) + " (" + ebase + " " + x.S + ")) (" + eidx + " " + x.S + ")))"
+					return Val{T: f.Type(), S: "(ite (< " + x.S + " 0) " + alt + " (select " + fv.heapGet(ce.st, k) + " " + x.S + "))"}, true
+				}
 				return ce.wfRead(Val{T: f.Type(), S: "(select " + fv.heapGet(ce.st, k) + " " + x.S + ")"}), true
 			}
 		}
@@ -567,6 +596,13 @@ func (ce *CEnv) selector(x *ESel) Val {
 				if id.Name == ce.pkg.Name() {
 					if o := ce.pkg.Scope().Lookup(x.Name); o != nil {
 						return ce.objectVal(o)
+					}
+				}
+				if _, isSelf := ce.fieldOfSelf(id.Name); !isSelf {
+					if p := ce.fv.eng.packageByName(id.Name, ce.pkgPath); p != nil {
+						if o := p.Scope().Lookup(x.Name); o != nil {
+							return ce.objectVal(o)
+						}
 					}
 				}
 			}
@@ -820,6 +856,13 @@ func (ce *CEnv) call(x *ECall) Val {
 							cfail("%s.%s is not a function", id.Name, sel.Name)
 						}
 					}
+					if _, isSelf := ce.fieldOfSelf(id.Name); !isSelf {
+						if p := ce.fv.eng.packageByName(id.Name, ce.pkgPath); p != nil {
+							if f, ok := p.Scope().Lookup(sel.Name).(*types.Func); ok {
+								return ce.pureCall(f, nil, x.Args)
+							}
+						}
+					}
 				}
 			}
 		}
@@ -911,15 +954,19 @@ func (ce *CEnv) call(x *ECall) Val {
 		// eqRange(a, i, b, j, n): a[i..i+n) == b[j..j+n)
 		a, i, b, j, n := arg(0), ce.idxTerm(arg(1)), arg(2), ce.idxTerm(arg(3)), ce.idxTerm(arg(4))
 		qn := fv.q.fresh("q.k")
+		ce.qdepth++
 		ia := ce.index(a, Val{T: types.Typ[types.Int], S: idxAdd(m, i, qn)})
 		ib := ce.index(b, Val{T: types.Typ[types.Int], S: idxAdd(m, j, qn)})
+		ce.qdepth--
 		return boolVal(fmt.Sprintf("(forall ((%s %s)) (=> (and %s %s) (= %s %s)))", qn, m.idxSort(), m.cmp("<=", m.idx(0), qn, true), m.cmp("<", qn, n, true), ia.S, ib.S))
 	case "bytesEq":
 		a, b := arg(0), arg(1)
 		la, lb := ce.lenTerm(a), ce.lenTerm(b)
 		qn := fv.q.fresh("q.k")
+		ce.qdepth++
 		ia := ce.index(a, Val{T: types.Typ[types.Int], S: qn})
 		ib := ce.index(b, Val{T: types.Typ[types.Int], S: qn})
+		ce.qdepth--
 		return boolVal(fmt.Sprintf("(and (= %s %s) (forall ((%s %s)) (=> (and %s %s) (= %s %s))))", la, lb, qn, m.idxSort(), m.cmp("<=", m.idx(0), qn, true), m.cmp("<", qn, la, true), ia.S, ib.S))
 	case "held":
 		k := fv.lockKeyFromSpecEnv(ce, x.Args[0])
@@ -950,6 +997,81 @@ func (ce *CEnv) call(x *ECall) Val {
 			t = types.NewPointer(t)
 		}
 		return boolVal(fmt.Sprintf("(= (itag %s) %d)", v.S, fv.typeTag(t)))
+	case "elemIndex", "pointsInto":
+		// element references (&s[i] used as a value): elemIndex(p, s) = i, pointsInto(p, s) = p denotes an element of s
+		p, s := arg(0), arg(1)
+		pp, ok := p.T.Underlying().(*types.Pointer)
+		if !ok {
+			cfail("%s: pointer expected", id.Name)
+		}
+		if fv.matTypes == nil {
+			fv.matTypes = map[string]types.Type{}
+		}
+		fv.matTypes[typeKey(pp.Elem())] = pp.Elem()
+		_, ebase, eidx := fv.erefFuns(pp.Elem())
+		var rel string
+		if m.BV {
+			rel = "(bvsub (" + eidx + " " + p.S + ") (soff " + s.S + "))"
+		} else {
+			rel = "(- (" + eidx + " " + p.S + ") (soff " + s.S + "))"
+		}
+		if id.Name == "elemIndex" {
+			return Val{T: types.Typ[types.Int], S: rel}
+		}
+		return boolVal("(and (< " + p.S + " 0) (= (" + ebase + " " + p.S + ") (sbase " + s.S + ")) " + m.cmp("<=", m.idx(0), rel, true) + " " + m.cmp("<", rel, "(slen "+s.S+")", true) + ")")
+	case "bytesLess":
+		// bytesLess(a, b): bytes.Compare(a, b) < 0 — the same strict total order the bytes.Compare model uses
+		a, b := arg(0), arg(1)
+		sa, sb := fv.bytesToString(ce.st, a.S), fv.bytesToString(ce.st, b.S)
+		fv.q.declareFun("bytes.lt", []string{"Str", "Str"}, "Bool")
+		if ce.qdepth == 0 {
+			fv.q.assume("(not (and (bytes.lt " + sa + " " + sb + ") (bytes.lt " + sb + " " + sa + ")))")
+			fv.q.assume("(=> (not (= " + sa + " " + sb + ")) (or (bytes.lt " + sa + " " + sb + ") (bytes.lt " + sb + " " + sa + ")))")
+			fv.q.assume("(not (bytes.lt " + sa + " " + sa + "))")
+		}
+		if !fv.axiomsDone["bytes.lt.trans"] {
+			fv.axiomsDone["bytes.lt.trans"] = true
+			fv.q.assume("(forall ((x Str) (y Str) (z Str)) (! (=> (and (bytes.lt x y) (bytes.lt y z)) (bytes.lt x z)) :pattern ((bytes.lt x y) (bytes.lt y z))))")
+			fv.note("model: bytes.Compare is a strict total order on contents (transitive)")
+		}
+		return boolVal("(bytes.lt " + sa + " " + sb + ")")
+	case "has":
+		// has(m, k): key k is in map m
+		v := arg(0)
+		u, ok := v.T.Underlying().(*types.Map)
+		if !ok {
+			cfail("has: map expected")
+		}
+		ks := fv.mapKeys(u)
+		key := ce.coerce(arg(1), u.Key())
+		return boolVal("(select (select " + fv.heapGet(ce.st, ks[0]) + " " + v.S + ") " + key.S + ")")
+	case "iface":
+		// iface(x): x converted to interface{}
+		v := arg(0)
+		if _, isI := v.T.Underlying().(*types.Interface); isI {
+			return v
+		}
+		return Val{T: types.NewInterfaceType(nil, nil), S: fv.makeIface(v, v.T)}
+	case "payload":
+		// payload(x, ptr_pkg.T): the dynamic value of interface x viewed at type T (meaningful when typeIs(x, T))
+		v := arg(0)
+		var tname string
+		switch tn := x.Args[1].(type) {
+		case *EIdent:
+			tname = tn.Name
+		case *ESel:
+			if id, ok := tn.X.(*EIdent); ok {
+				tname = id.Name + "." + tn.Name
+			}
+		}
+		t := ce.typeByName(strings.TrimPrefix(tname, "ptr_"))
+		if t == nil {
+			cfail("payload: unknown type %s", tname)
+		}
+		if strings.HasPrefix(tname, "ptr_") {
+			t = types.NewPointer(t)
+		}
+		return Val{T: t, S: fv.unboxIface(v.S, t)}
 	case "flagSet":
 		v := arg(0)
 		st, ok := v.T.Underlying().(*types.Struct)
@@ -964,6 +1086,17 @@ func (ce *CEnv) call(x *ECall) Val {
 		v := arg(0)
 		if _, ok := v.T.Underlying().(*types.Slice); !ok {
 			cfail("str() of %v", v.T)
+		}
+		if ce.qdepth > 0 {
+			// under a quantifier the defining axioms cannot be asserted at top level: use the raw application
+			// (equal content windows of the same array still give equal terms)
+			bsort := "Int"
+			if m.BV {
+				bsort = "(_ BitVec 8)"
+			}
+			k := fv.elemsKey(types.Typ[types.Uint8])
+			fv.q.declareFun("str.of", []string{"(Array " + m.idxSort() + " " + bsort + ")", m.idxSort(), m.idxSort()}, "Str")
+			return Val{T: types.Typ[types.String], S: "(str.of (select " + fv.heapGet(ce.st, k) + " (sbase " + v.S + ")) (soff " + v.S + ") (slen " + v.S + "))"}
 		}
 		return Val{T: types.Typ[types.String], S: fv.bytesToString(ce.st, v.S)}
 	case "popcount8":
@@ -1067,6 +1200,11 @@ func (ce *CEnv) specCall(sf *SpecFn, args []Expr) Val {
 		v := ce.eval(a)
 		if t := ce.typeByName(sf.Params[i].Type); t != nil {
 			v = ce.coerce(v, t)
+			if _, isI := t.Underlying().(*types.Interface); isI && v.T != nil {
+				if _, vI := v.T.Underlying().(*types.Interface); !vI {
+					v = Val{T: t, S: fv.makeIface(v, v.T)}
+				}
+			}
 		} else if v.T == untypedInt {
 			v = ce.coerce(v, types.Typ[types.Int])
 		}
